@@ -61,12 +61,15 @@ var AnchorNames = map[string]bool{
 	"Amount":                      true,
 	"AmountFromString":            true,
 	"ApplyRoundingRule":           true,
+	"Bulk":                        true,
 	"Calculate":                   true,
 	"CanonicalJSON":               true,
 	"Clone":                       true,
 	"Code":                        true,
 	"Compare":                     true,
 	"Contains":                    true,
+	"Convert":                     true,
+	"Correct":                     true,
 	"Def":                         true,
 	"DetectDuplicateStamps":       true,
 	"Digest":                      true,
@@ -77,6 +80,7 @@ var AnchorNames = map[string]bool{
 	"Equals":                      true,
 	"Exp":                         true,
 	"ExtensionForKey":             true,
+	"Extract":                     true,
 	"Factor":                      true,
 	"Float64":                     true,
 	"For":                         true,
@@ -96,22 +100,30 @@ var AnchorNames = map[string]bool{
 	"JSONSchemaExtend":            true,
 	"JSONWebSignature":            true,
 	"MakeAmount":                  true,
+	"MarshalJSON":                 true,
+	"MarshalText":                 true,
 	"MatchPrecision":              true,
 	"Matches":                     true,
 	"Merge":                       true,
 	"Multiply":                    true,
 	"Negate":                      true,
+	"NewEnvelope":                 true,
 	"NewHeader":                   true,
+	"NewSHA256Digest":             true,
 	"Normalize":                   true,
 	"NormalizeIdentity":           true,
 	"NoteFromScenario":            true,
 	"Of":                          true,
 	"Percent":                     true,
+	"PercentageFromAmount":        true,
+	"PercentageFromString":        true,
 	"RegimeDef":                   true,
 	"RegimeDefFor":                true,
 	"RegimeDefFromContext":        true,
 	"RegisterCatalogueDef":        true,
 	"Remove":                      true,
+	"RemoveIncludedTaxes":         true,
+	"Replicate":                   true,
 	"Rescale":                     true,
 	"RescaleDown":                 true,
 	"RescaleUp":                   true,
@@ -125,6 +137,8 @@ var AnchorNames = map[string]bool{
 	"String":                      true,
 	"Subtract":                    true,
 	"TagsIn":                      true,
+	"UnmarshalJSON":               true,
+	"UnmarshalText":               true,
 	"Upscale":                     true,
 	"Validate":                    true,
 	"ValidateWithContext":         true,
@@ -133,17 +147,45 @@ var AnchorNames = map[string]bool{
 	"VerifySignature":             true,
 	"Zero":                        true,
 	"calculate":                   true,
+	"calculateBaseCategoryTotal":  true,
+	"calculateBaseRateTotals":     true,
+	"calculateChargeSum":          true,
+	"calculateCharges":            true,
+	"calculateDiscountSum":        true,
+	"calculateDiscounts":          true,
+	"calculateFinalSum":           true,
+	"calculateLine":               true,
+	"calculateLineCharges":        true,
+	"calculateLineDiscounts":      true,
+	"calculateLineSum":            true,
+	"calculateSubLine":            true,
+	"checkRateValuesOrder":        true,
+	"compare":                     true,
+	"correct":                     true,
 	"correctionDef":               true,
+	"encodeString":                true,
 	"get":                         true,
+	"handleNextToken":             true,
 	"intPow":                      true,
 	"matchRoundingPrecision":      true,
 	"matches":                     true,
+	"newCategoryTotal":            true,
+	"newRateTotal":                true,
+	"prepareRate":                 true,
+	"prepareScenarios":            true,
+	"processRequest":              true,
 	"rateTotalFor":                true,
+	"removeIncludedTaxes":         true,
+	"removeLineIncludedTaxes":     true,
 	"removePreviousScenarioNotes": true,
+	"replicate":                   true,
 	"reset":                       true,
 	"round":                       true,
+	"tokenToValue":                true,
+	"totalAdvance":                true,
 	"unquote":                     true,
 	"validatePrecedingData":       true,
+	"verifyDigest":                true,
 	"verifySignature":             true,
 	"wrapError":                   true,
 }
@@ -1045,6 +1087,35 @@ func (st *inlineState) hoist(slots []*ast.Expr, depth int) []ast.Stmt {
 				break
 			}
 			call := ast.Unparen(*at).(*ast.CallExpr)
+			// a callee that is a single `return <expr>` whose parameters can all be substituted is
+			// replaced by that expression itself
+			if len(cfd.Decl.Body.List) == 1 {
+				if r, ok := cfd.Decl.Body.List[0].(*ast.ReturnStmt); ok && len(r.Results) == 1 && !st.stack[cfd.Obj] {
+					body := st.cloneNode(cfd.Decl.Body).(*ast.BlockStmt)
+					subst := st.substitute(call, cfd, body)
+					sig := cfd.Obj.Type().(*types.Signature)
+					all := true
+					if sig.Recv() != nil && !subst[sig.Recv()] && sig.Recv().Name() != "" && sig.Recv().Name() != "_" {
+						all = false
+					}
+					for i := 0; i < sig.Params().Len(); i++ {
+						if pv := sig.Params().At(i); !subst[pv] && pv.Name() != "" && pv.Name() != "_" {
+							all = false
+						}
+					}
+					if all {
+						e := body.List[0].(*ast.ReturnStmt).Results[0]
+						*at = e // (an AST needs no parentheses)
+						st.changed = true
+						st.count[cfd.Obj]++
+						if st.p.wasInlined == nil {
+							st.p.wasInlined = map[*types.Func]bool{}
+						}
+						st.p.wasInlined[cfd.Obj] = true
+						continue
+					}
+				}
+			}
 			ss, res, ok := st.expand(call, cfd, depth, false, nil, token.ILLEGAL)
 			if !ok || len(res) != 1 {
 				break
@@ -1315,6 +1386,7 @@ func (st *inlineState) normalise(body *ast.BlockStmt) {
 	}
 	lists = func(list []ast.Stmt) []ast.Stmt {
 		list = st.foldConstruction(list)
+		list = st.duplicateTail(list)
 		var out []ast.Stmt
 		for _, s := range list {
 			out = append(out, one(s)...)
@@ -1874,7 +1946,6 @@ func (st *inlineState) unrollLiteralRange(x *ast.RangeStmt, scope *ast.BlockStmt
 	return out
 }
 
-
 // foldConstruction: `x := new(T)` (or `x := &T{}` / `x := &T{…}`) followed
 // directly by assignments `x.F = e` to distinct fields of T whose values do not
 // mention x is the composite literal `x := &T{…, F: e}`.
@@ -1977,4 +2048,82 @@ func (st *inlineState) foldConstruction(list []ast.Stmt) []ast.Stmt {
 		i = j - 1
 	}
 	return out
+}
+
+// duplicateTail: `if v != nil { A } [else { B }]; return …v…` where the results of
+// the return are plain variables and constants and the condition is a nil test
+// of one of them becomes `if … { A; return … } else { B; return … }`: every exit
+// then lies where the test is known, which is what the rules read.
+func (st *inlineState) duplicateTail(list []ast.Stmt) []ast.Stmt {
+	n := len(list)
+	if n < 2 {
+		return list
+	}
+	ret, ok := list[n-1].(*ast.ReturnStmt)
+	is, ok2 := list[n-2].(*ast.IfStmt)
+	if !ok || !ok2 || is.Init != nil || len(ret.Results) == 0 {
+		return list
+	}
+	vars := map[*types.Var]bool{}
+	for _, r := range ret.Results {
+		r = ast.Unparen(r)
+		if tv, ok := st.info.Types[r]; ok && tv.Value != nil {
+			continue
+		}
+		id, ok := r.(*ast.Ident)
+		if !ok {
+			return list
+		}
+		if id.Name == "nil" || id.Name == "true" || id.Name == "false" {
+			continue
+		}
+		v, ok := st.info.Uses[id].(*types.Var)
+		if !ok {
+			return list
+		}
+		vars[v] = true
+	}
+	// the condition tests one of the returned variables against nil
+	be, ok := ast.Unparen(is.Cond).(*ast.BinaryExpr)
+	if !ok || (be.Op != token.EQL && be.Op != token.NEQ) {
+		return list
+	}
+	tested := VarOf(st.info, be.X)
+	if tested == nil || !vars[tested] {
+		tested = VarOf(st.info, be.Y)
+	}
+	if tested == nil || !vars[tested] {
+		return list
+	}
+	if _, ok := is.Else.(*ast.IfStmt); ok {
+		return list
+	}
+	endsInExit := func(b *ast.BlockStmt) bool {
+		if b == nil || len(b.List) == 0 {
+			return false
+		}
+		switch x := b.List[len(b.List)-1].(type) {
+		case *ast.ReturnStmt:
+			return true
+		case *ast.BranchStmt:
+			return x.Tok == token.BREAK || x.Tok == token.CONTINUE || x.Tok == token.GOTO
+		}
+		return false
+	}
+	ni := &ast.IfStmt{If: is.If, Cond: is.Cond, Body: &ast.BlockStmt{Lbrace: is.Body.Lbrace, List: append([]ast.Stmt{}, is.Body.List...), Rbrace: is.Body.Rbrace}}
+	if !endsInExit(is.Body) {
+		ni.Body.List = append(ni.Body.List, st.cloneNode(ret).(ast.Stmt))
+	}
+	els := &ast.BlockStmt{Lbrace: ret.Pos(), Rbrace: ret.End()}
+	if eb, ok := is.Else.(*ast.BlockStmt); ok {
+		els.List = append(els.List, eb.List...)
+		if !endsInExit(eb) {
+			els.List = append(els.List, ret)
+		}
+	} else {
+		els.List = append(els.List, ret)
+	}
+	ni.Else = els
+	st.changed = true
+	return append(append([]ast.Stmt{}, list[:n-2]...), ni)
 }
